@@ -161,3 +161,46 @@ fn c17_inject() {
     kani::cover!(len == 16, "COVER:full");
     kani::cover!(true, "COVER:end");
 }
+
+/// C11.alloc.twin (bounded stand-in that exists to produce concrete counterexamples for the Verus
+/// obligations): the real `allocate_jit_memory_unix` with the page size forced to 64 MiB, so that the
+/// search makes at most 5 attempts; every attempt either fails or returns an arbitrary address.
+#[kani::proof]
+#[kani::unwind(8)]
+fn c11_alloc_twin() {
+    let src: usize = kani::any();
+    kani::assume(src != 0 && src < 0x8000_0000_0000);
+    unsafe {
+        os::PAGE_SIZE = 0x400_0000;
+        let mut k = 0;
+        while k < os::MAXMAP {
+            let ok: bool = kani::any();
+            os::MMAP_MODE[k] = if ok { os::MMAP_INT } else { os::MMAP_FAIL };
+            let a: usize = kani::any();
+            kani::assume(a != 0 && a != usize::MAX && a < 0x1_0000_0000_0000);
+            // fresh addresses: distinct from the ones handed out before
+            let mut j = 0;
+            while j < os::MAXMAP {
+                if j < k {
+                    kani::assume(os::MMAP_ADDR[j] != a);
+                }
+                j += 1;
+            }
+            os::MMAP_ADDR[k] = a;
+            k += 1;
+        }
+        ALLOW = bit(K_NOMEM);
+        JUSTIFIED = true;
+        NEED_LIVE = 0; // at the clean-failure panic nothing that was tried is left mapped
+    }
+    let p = allocate_jit_memory(&fp_int(src), 12) as usize;
+    unsafe {
+        let d = p as i128 - src as i128;
+        assert!(d >= -0x8000000 && d <= 0x8000000, "OBL:C11.twin.reach: the returned trampoline is within the window");
+        assert!(os::live_count() == 1 && !os::BAD_MUNMAP, "OBL:C11.twin.frame: exactly the returned mapping is live; rejected placements were given back with their own address and length");
+        assert!(os::LAST_MMAP_LEN == 12, "OBL:C11.twin.size: the mapping has the requested size");
+    }
+    kani::cover!(src < 0x800_0000, "COVER:clipped-window");
+    kani::cover!(unsafe { os::N_MUNMAP } >= 2, "COVER:two-rejections");
+    kani::cover!(true, "COVER:end");
+}
